@@ -17,7 +17,7 @@ import (
 // l2Reviewed: unexported functions that may return (nil, nil) by design; every caller handles the nil value.
 var l2Reviewed = map[string]string{
 	"semantic.processPredicate": "a nil predicate with a nil error means 'only partially specified' (binding, alias or bound); its callers store it into the clause or test it, never dereference it",
-	"planner.tripleToRow": "(nil, nil) means 'triple does not satisfy the clause'; the only caller, addTriples, tests r == nil before using the row",
+	"planner.tripleToRow":       "(nil, nil) means 'triple does not satisfy the clause'; the only caller, addTriples, tests r == nil before using the row",
 }
 
 func nilable(t types.Type) bool {
@@ -71,6 +71,16 @@ func ruleL2(c *Ctx, min int, rels ...string) {
 			if !isNilConst(rv[0]) {
 				continue
 			}
+			// (nil, false, nil): the comma-ok form — the boolean says "nothing here", which the caller must test
+			absent := false
+			for _, mid := range rv[1 : len(rv)-1] {
+				if k, ok := mid.(*ssa.Const); ok && k.Value != nil && k.Value.Kind() == constant.Bool && !constant.BoolVal(k.Value) {
+					absent = true
+				}
+			}
+			if absent {
+				continue
+			}
 			if c.errProvablyNil(fn, rv[len(rv)-1], r) {
 				bad = append(bad, c.pos(r.Pos()))
 			}
@@ -95,7 +105,7 @@ func ruleL2(c *Ctx, min int, rels ...string) {
 // ---- L3 comma-ok dereference ---------------------------------------------------------------------
 
 func ruleL3(c *Ctx, rels ...string) {
-	c.Rule("L3", "a value looked up with the comma-ok form is not dereferenced on the path where the key may be absent: for v, ok := m[k] with pointer-typed v whose ok is used, every field access or dereference of v is dominated by the ok edge or by v != nil", 12)
+	c.Rule("L3", "a value looked up with the comma-ok form is not dereferenced on the path where the key may be absent: for v, ok := m[k] with pointer-typed v whose ok is used, every field access or dereference of v is dominated by the ok edge or by v != nil", 8)
 	for _, fn := range c.srcFuncs(rels...) {
 		fi := c.fi(fn)
 		allInstrs(fn, func(in ssa.Instruction) {
@@ -282,8 +292,8 @@ func ruleL6(c *Ctx, min int, rels ...string) {
 				continue
 			}
 			// which synchronisation does the goroutine signal at its end?
-			var doneWG []ssa.Value   // wait groups it calls Done on (as captured cells)
-			var sendsOn []ssa.Value  // channels it sends on
+			var doneWG []ssa.Value  // wait groups it calls Done on (as captured cells)
+			var sendsOn []ssa.Value // channels it sends on
 			var rangesOver []ssa.Value
 			bindOf := func(v ssa.Value) ssa.Value {
 				// map a free variable of the closure back to the captured cell in fn
@@ -878,6 +888,11 @@ func ruleIO1(c *Ctx) {
 	okSuccess, nSucc := true, 0
 	for _, r := range c.returnsOf(fn) {
 		rv := resultValues(r)
+		if scanErr != nil && rv[1] == ssa.Value(scanErr) {
+			// return cnt, scanner.Err(): the scanner's verdict is the result
+			nSucc++
+			continue
+		}
 		if isNilConst(rv[1]) {
 			nSucc++
 			dom := false
